@@ -221,8 +221,8 @@ def query_arith(k0, k1, v0, v1):
 
 @cond('C02.query.repeated-aggregate', quick=180, thorough=600,
       bounds='2 rows (k in {NULL,0,1}, v symbolic int or NULL); the same aggregate written more than once: SELECT k, sum(v) + sum(v), '
-             'max(v) - min(v) + max(v), count(*) + count(*), sum(v) GROUP BY k [HAVING count(v) + count(v) > 1]: every occurrence '
-             'is the fold of its group',
+             'max(v) - min(v) + max(v), count(*) + count(*), sum(v), coalesce(max(v), 0) + count(*), coalesce(sum(v), -1) GROUP BY k '
+             '[HAVING count(v) + count(v) > 1]: every occurrence is the fold of its group, also inside coalesce()',
       symbolic='v cells, HAVING presence', enumerated='k cells',
       params={'k0': int, 'k1': int, 'v0': Optional[int], 'v1': Optional[int], 'having': bool})
 def query_repeated_aggregate(k0, k1, v0, v1, having):
@@ -232,7 +232,10 @@ def query_repeated_aggregate(k0, k1, v0, v1, having):
         (lambda: func('count', ast.Asterisk())), (lambda: func('count', col('v')))
     hv = ast.Greater(ast.Add(CV(), CV()), const(1)) if having else None
     stmt = sel([target(col('k')), target(ast.Add(S(), S()), 'a'), target(ast.Add(ast.Sub(MX(), MN()), MX()), 'b'),
-                target(ast.Add(CS(), CS()), 'c'), target(S(), 'd')], 't', group_by=ast.GroupBy([1], hv))
+                target(ast.Add(CS(), CS()), 'c'), target(S(), 'd'),
+                # aggregates inside coalesce(), alone and next to another aggregate
+                target(ast.Add(func('coalesce', MX(), const(0)), CS()), 'e'), target(func('coalesce', S(), const(-1)), 'f')],
+               't', group_by=ast.GroupBy([1], hv))
     cur, got, want = _run_both(stmt, rows, columns)
     if not same_rows(got, want.rows):
         return 'repeated-aggregate'
@@ -242,7 +245,8 @@ def query_repeated_aggregate(k0, k1, v0, v1, having):
 @cond('C02.query.group-without-aggregates', quick=180, thorough=600,
       bounds='3 rows (k, j in {NULL,0,1} enumerated); GROUP BY without any aggregate: SELECT k GROUP BY k, j (hidden key j), '
              'SELECT k, j GROUP BY k, j, SELECT j GROUP BY 1, k: exactly one row per group, also when groups agree on the visible '
-             'columns',
+             'columns; SELECT k, count(*) GROUP BY k, j HAVING count(*) > 1 and SELECT count(*) GROUP BY j HAVING count(*) < 2 (HAVING '
+             'with a hidden key)',
       symbolic='(none)', enumerated='cells, statement form', params={**{f'{c}{i}': int for c in 'kj' for i in range(3)}, 'form': int})
 def query_group_without_aggregates(form, **kw):
     rows = [(KEYDOM.build(f'k{i}', kw), KEYDOM.build(f'j{i}', kw)) for i in range(3)]
@@ -251,6 +255,11 @@ def query_group_without_aggregates(form, **kw):
         lambda: sel([target(col('k'))], 't', group_by=ast.GroupBy([col('k'), col('j')], None)),
         lambda: sel([target(col('k')), target(col('j'))], 't', group_by=ast.GroupBy([col('k'), col('j')], None)),
         lambda: sel([target(col('j'))], 't', group_by=ast.GroupBy([1, col('k')], None)),
+        # HAVING together with a hidden grouping key: the HAVING verdict, not the hidden key, keeps or drops the group
+        lambda: sel([target(col('k')), target(func('count', ast.Asterisk()), 'n')], 't',
+                    group_by=ast.GroupBy([col('k'), col('j')], ast.Greater(func('count', ast.Asterisk()), const(1)))),
+        lambda: sel([target(func('count', ast.Asterisk()), 'n')], 't',
+                    group_by=ast.GroupBy([col('j')], ast.Less(func('count', ast.Asterisk()), const(2)))),
     ], form)()
     cur, got, want = _run_both(stmt, rows, columns)
     if not same_rows(got, want.rows):
